@@ -1,0 +1,19 @@
+//go:build verif
+
+package pppoe
+
+// VerifC20SetNextID presets the session-id counter of the manager (field
+// wrapper, no behaviour of its own): lets the C20 check reach the 65535 -> 1
+// wrap-around without 65 534 preliminary creates.
+func (m *SessionManager) VerifC20SetNextID(id uint16) {
+	m.mu.Lock()
+	m.nextID = id
+	m.mu.Unlock()
+}
+
+// VerifC20NextID returns the session-id counter.
+func (m *SessionManager) VerifC20NextID() uint16 {
+	m.mu.RLock()
+	defer m.mu.RUnlock()
+	return m.nextID
+}
